@@ -61,6 +61,20 @@ type recursionChecker struct {
 	// viaRootTypes counts the types on the current path that were found through
 	// rootTypes.
 	viaRootTypes int
+
+	// closed remembers, for a type whose walk ended without an error and without
+	// ever meeting a type of the path, every type name that walk visited. Such a
+	// walk gives the same answer again as long as none of these names is on the
+	// path; without it a project of layered type choices (@a1 | @b1, both of
+	// them @a2 | @b2, ...) is walked once per route, 2^layers times.
+	closed map[*ischema.ISchema]map[string]struct{}
+
+	// revisits counts how often a walk met a type of the path.
+	revisits int
+
+	// reached collects the type names visited by the walks in progress, one
+	// entry per walk.
+	reached []map[string]struct{}
 }
 
 func (c *recursionChecker) check(node ischema.Node, types map[string]ischema.Type) error {
@@ -192,12 +206,50 @@ func (c *recursionChecker) checkType(typeName string, types map[string]ischema.T
 		return nil
 	}
 
-	return c.check(t.Schema.RootNode(), t.Schema.TypesList())
+	if names, ok := c.closed[t.Schema]; ok && !c.anyVisited(names, typeName) {
+		c.reach(names)
+		return nil
+	}
+
+	revisits := c.revisits
+	c.reached = append(c.reached, map[string]struct{}{typeName: {}})
+	err := c.check(t.Schema.RootNode(), t.Schema.TypesList())
+	names := c.reached[len(c.reached)-1]
+	c.reached = c.reached[:len(c.reached)-1]
+	c.reach(names)
+	if err == nil && revisits == c.revisits {
+		if c.closed == nil {
+			c.closed = make(map[*ischema.ISchema]map[string]struct{})
+		}
+		c.closed[t.Schema] = names
+	}
+	return err
+}
+
+// reach adds names to the names visited by the innermost walk in progress.
+func (c *recursionChecker) reach(names map[string]struct{}) {
+	if n := len(c.reached); n > 0 {
+		for name := range names {
+			c.reached[n-1][name] = struct{}{}
+		}
+	}
+}
+
+// anyVisited tells whether one of names, the type being entered aside, is on
+// the path.
+func (c *recursionChecker) anyVisited(names map[string]struct{}, entered string) bool {
+	for name := range names {
+		if _, ok := c.visited[name]; ok && name != entered {
+			return true
+		}
+	}
+	return false
 }
 
 func (c *recursionChecker) visit(typeName string) bool {
 	c.path = append(c.path, typeName)
 	if _, ok := c.visited[typeName]; ok {
+		c.revisits++
 		return false
 	}
 	c.visited[typeName] = struct{}{}
